@@ -3,14 +3,15 @@
 EXTENDS PortFwd, Json, IOUtils, SequencesExt
 TraceLog == ndJsonDeserialize(IOEnv.VERIF_TRACE)
 Strict == IOEnv.VERIF_STRICT = "1"
-VARIABLES l, obs
-tvars == <<vars, l, obs>>
+VARIABLES l, obs, gated      \* gated: the run held the reader goroutine at its hook point, so observations are exact in every state
+tvars == <<vars, l, obs, gated>>
 E == TraceLog[l]
 Obs0 == [table |-> <<>>, tgot |-> [s \in Socks |-> <<>>], tside |-> [s \in Socks |-> "none"], q |-> <<>>,
          agot |-> [s \in Socks |-> <<>>], atold |-> <<>>, locked |-> FALSE, done |-> TRUE]
-TraceInit == Init /\ l = 1 /\ obs = Obs0
+TraceInit == Init /\ l = 1 /\ obs = Obs0 /\ gated = FALSE
 IsEvent(e) == l <= Len(TraceLog) /\ E.ev = e /\ l' = l + 1
-Reset == /\ IsEvent("Reset") /\ obs' = Obs0
+Reset == /\ IsEvent("Reset") /\ obs' = Obs0 /\ gated' = E.gated
+         /\ rd' = [s \in Socks |-> "none"] /\ held' = [s \in Socks |-> <<>>]
          /\ ent' = [s \in Socks |-> "none"] /\ tside' = [s \in Socks |-> "none"]
          /\ sent' = [s \in Socks |-> <<>>] /\ tgot' = [s \in Socks |-> <<>>]
          /\ wrote' = [s \in Socks |-> <<>>] /\ pend' = [s \in Socks |-> <<>>] /\ eofp' = [s \in Socks |-> FALSE]
@@ -23,7 +24,7 @@ Act == \/ (IsEvent("Open") /\ Open(E.s))
        \/ (IsEvent("Reader") /\ Reader(E.s))
        \/ (IsEvent("Remove") /\ Remove(E.s))
        \/ (IsEvent("CheckIn") /\ CheckIn)
-Seen == obs' = E.st
+Seen == obs' = E.st /\ UNCHANGED gated
 ListedOf(t) == {t[i].s : i \in 1..Len(t)}
 (* the recorder shows write tasks of one socket that follow each other as one entry (the relay's buffer cuts large reads) *)
 RECURSIVE Merge(_)
@@ -33,7 +34,7 @@ Merge(ts) == IF Len(ts) < 2 THEN ts
                   ELSE <<a>> \o Merge(Tail(ts))
 (* strict: the relay is deterministic once the reader goroutine has had its turn *)
 Bound == /\ tgot' = E.st.tgot
-         /\ (\A s \in Socks : ~ReaderEnabled(s)') =>
+         /\ (gated \/ \A s \in Socks : ~ReaderEnabled(s)') =>
                /\ Merge(q') = E.st.q /\ agot' = E.st.agot /\ atold' = ToSet(E.st.atold)
                /\ ListedOf(E.st.table) = {s \in Socks : ent'[s] \in {"listed", "open"}}
                /\ \A s \in Socks : tside'[s] = "eof" <=> E.st.tside[s] = "eof"
@@ -42,17 +43,17 @@ TraceNext == Reset \/ (Act /\ Seen /\ (Strict => Bound))
 TraceSpec == TraceInit /\ [][TraceNext]_tvars
 TraceAccepted == TLCGet("stats").diameter - 1 = Len(TraceLog)
 -----------------------------------------------------------------------------
-Quiet == \A s \in Socks : ~ReaderEnabled(s)
+Quiet == gated \/ \A s \in Socks : ~ReaderEnabled(s)     \* when are the observations exact
 ObsListed == ListedOf(obs.table)
 ObsTold(s) == s \in ToSet(obs.atold) \/ \E i \in 1..Len(obs.q) : obs.q[i].k = "c" /\ obs.q[i].s = s
 (* what the agent sent is what the target received, in order, nothing else *)
 MonUpIntact == \A s \in Socks : obs.tgot[s] = sent[s]
 (* what the target wrote is what the agent is handed (same socket id), in order, once the relay has had its turn -
    while the connection is still open, not only at its end *)
-MonDownIntact == Quiet => \A s \in Socks \ byagent : obs.agot[s] = agot[s] /\ obs.agot[s] \o QW(obs.q, s) = wrote[s]
+MonDownIntact == Quiet => \A s \in Socks \ byagent : obs.agot[s] = agot[s] /\ obs.agot[s] \o QW(obs.q, s) \o held[s] \o pend[s] = wrote[s]
 (* closing either side removes the socket everywhere *)
 MonClosedEverywhere == Quiet => \A s \in Socks :
-    /\ (tside[s] = "closed" /\ s \notin byagent) => (s \notin ObsListed /\ ObsTold(s))
+    /\ (tside[s] = "closed" /\ rd[s] = "exit" /\ s \notin byagent) => (s \notin ObsListed /\ ObsTold(s))
     /\ (s \in byagent) => (s \notin ObsListed /\ obs.tside[s] # "open")
 (* the forward table: one entry per live socket, no leftovers, no duplicates, no stuck mutex *)
 MonTableConsistent == /\ Len(obs.table) = Cardinality(ObsListed)
